@@ -414,6 +414,120 @@ theorem type_setter_dispatch (v : Str) (d : T2) :
       simp [h1, h2]
 
 
+/-! ## add_generator / delete_generator, insert_section / delete_section -/
+
+/-- `add_generator` appends the generator and makes the lookup entry of its (block, name) point to it. -/
+theorem add_generator_spec (d : T2) (g : Gener) :
+    (addGenerator d g).gens = d.gens ++ [g] ∧
+    (addGenerator d g).gendict.lookup (g.block, g.name) = some g.id ∧
+    (∀ k, k ≠ (g.block, g.name) → (addGenerator d g).gendict.lookup k = d.gendict.lookup k) := by
+  refine ⟨rfl, ?_, ?_⟩
+  · show (gdSet d.gendict (g.block, g.name) g.id).lookup (g.block, g.name) = some g.id
+    generalize d.gendict = dc
+    induction dc with
+    | nil => simp [gdSet]
+    | cons x r ih =>
+      obtain ⟨a, b⟩ := x
+      unfold gdSet
+      by_cases h : a = (g.block, g.name)
+      · subst h; simp
+      · have h1 : (a == (g.block, g.name)) = false := by simpa using h
+        have h2 : ((g.block, g.name) == a) = false := by simpa using (fun h' : (g.block, g.name) = a => h h'.symm)
+        simp only [h1, Bool.false_eq_true, if_false, List.lookup_cons, h2]
+        exact ih
+  · intro k hk
+    show (gdSet d.gendict (g.block, g.name) g.id).lookup k = d.gendict.lookup k
+    generalize d.gendict = dc
+    induction dc with
+    | nil =>
+      have : (k == (g.block, g.name)) = false := by simpa using hk
+      simp [gdSet, List.lookup_cons, this]
+    | cons x r ih =>
+      obtain ⟨a, b⟩ := x
+      unfold gdSet
+      by_cases ha : a = (g.block, g.name)
+      · subst ha
+        have : (k == (g.block, g.name)) = false := by simpa using hk
+        simp [List.lookup_cons, this]
+      · have h1 : (a == (g.block, g.name)) = false := by simpa using ha
+        simp only [h1, Bool.false_eq_true, if_false, List.lookup_cons]
+        cases (k == a) <;> simp [ih]
+
+/-- `delete_generator` removes the lookup entry and the generator it points to — or raises and
+    changes nothing (KeyError for an unknown key, ValueError when the object is not listed). -/
+theorem delete_generator_spec (d : T2) (key : Str × Str) :
+    (∀ d', deleteGenerator d key = (d', none) →
+        ∃ gid i, d.gendict.lookup key = some gid ∧ d.gens.findIdx? (·.id == gid) = some i ∧
+          d'.gens = d.gens.eraseIdx i ∧ d'.gendict = d.gendict.filter (·.1 != key) ∧ d'.gendict.lookup key = none) ∧
+    (∀ d' e, deleteGenerator d key = (d', some e) → d' = d) := by
+  unfold deleteGenerator
+  refine ⟨?_, ?_⟩
+  · intro d' h
+    cases hl : d.gendict.lookup key with
+    | none => rw [hl] at h; cases h
+    | some gid =>
+      rw [hl] at h
+      simp only at h
+      cases hi : d.gens.findIdx? (·.id == gid) with
+      | none => rw [hi] at h; cases h
+      | some i =>
+        rw [hi] at h
+        cases h
+        refine ⟨gid, i, rfl, hi, rfl, rfl, ?_⟩
+        show (d.gendict.filter (·.1 != key)).lookup key = none
+        generalize d.gendict = dc
+        induction dc with
+        | nil => rfl
+        | cons e r ih =>
+          obtain ⟨k, v⟩ := e
+          by_cases hk : k = key
+          · subst hk; simpa using ih
+          · have : (key == k) = false := by simpa using (fun h : key = k => hk h.symm)
+            simpa [List.filter_cons, hk, List.lookup_cons, this] using ih
+  · intro d' e h
+    cases hl : d.gendict.lookup key with
+    | none => rw [hl] at h; cases h; rfl
+    | some gid =>
+      rw [hl] at h
+      simp only at h
+      cases hi : d.gens.findIdx? (·.id == gid) with
+      | none => rw [hi] at h; cases h; rfl
+      | some i => rw [hi] at h; cases h
+
+/-- `insert_section` lists the keyword (once: nothing happens when it is listed already) and keeps
+    every other keyword; `delete_section` removes one occurrence and nothing else. -/
+theorem insert_delete_section_spec (d : T2) (s k : Str) :
+    (k ∈ (insertSection d s).sections ↔ k = s ∨ k ∈ d.sections) ∧
+    (s ∈ d.sections → (insertSection d s).sections = d.sections) ∧
+    ((insertSection d s).sections.count s = max 1 (d.sections.count s)) ∧
+    ((deleteSection d s).sections.count k = d.sections.count k - if s = k then 1 else 0) := by
+  refine ⟨mem_insertSectionL _ _ _, ?_, ?_, ?_⟩
+  · intro h
+    show insertSectionL d.sections s = d.sections
+    unfold insertSectionL
+    have : d.sections.contains s = true := by simpa using h
+    rw [this]; rfl
+  · show (insertSectionL d.sections s).count s = _
+    unfold insertSectionL
+    by_cases h : s ∈ d.sections
+    · have hc : d.sections.contains s = true := by simpa using h
+      rw [hc]
+      simp only [if_true]
+      have := List.count_pos_iff.mpr h
+      omega
+    · have hc : d.sections.contains s = false := by simpa using h
+      rw [hc]
+      simp only [Bool.false_eq_true, if_false, listInsert]
+      have h0 : d.sections.count s = 0 := List.count_eq_zero.mpr h
+      have h1 : (d.sections.take (sectionInsertionIndex d.sections s)).count s = 0 :=
+        List.count_eq_zero.mpr (fun hm => h (List.mem_of_mem_take hm))
+      have h2 : (d.sections.drop (sectionInsertionIndex d.sections s)).count s = 0 :=
+        List.count_eq_zero.mpr (fun hm => h (List.mem_of_mem_drop hm))
+      simp [List.count_append, h0, h1, h2]
+  · show (d.sections.erase s).count k = _
+    rw [List.count_erase]
+    by_cases h : s = k <;> simp [h]
+
 /-! ## Waiwera export -/
 
 section Waiwera
@@ -663,6 +777,11 @@ example : sampleT'.simulator = "AUTOUGH2.2EW".toList ∧ sampleT'.filename = "mo
     (updateSections sampleT').sections = [SIMUL, ROCKS, PARAM, LINEQ, MULTI, ELEME, CONNE, GENER, SHORT] ∧
     sampleT'.short.block = some [.blk "  a 1".toList] ∧ Dict.get? sampleT'.lineq kType = some (.int 2) ∧
     sampleT'.option = [0,0,0,0,0,0,0,0,0,0,0,0,0,0,0,0,0,0,0,0,0,0,0,0,0] := by decide
+-- add / delete a generator on the sample
+example : (deleteGenerator sampleA ("  b 1".toList, "wel 2".toList)).2 = none ∧
+    (deleteGenerator sampleA ("  b 1".toList, "nope ".toList)).2 = some .keyError ∧
+    ((addGenerator sampleA { id := 9, block := "  a 1".toList, name := "wel 1".toList, type := "HEAT".toList, payload := 1 }).gendict.map (·.2))
+      = [9, 2, 3] := by decide +kernel
 -- the type setter on both samples
 example : (setType TOUGH2 sampleA).1 = sampleA' ∧ (setType AUTOUGH2 sampleT).1 = sampleT' ∧
     setType TOUGH2 sampleT = (sampleT, none) ∧ (setType "TOUGH3".toList sampleA).2 = some .generic := by decide +kernel
